@@ -31,7 +31,7 @@ def x_defs(e):
 class Mat:
     """A materialised scenario."""
 
-    def __init__(self, scen, base, seed=0, alias=None, ext_c=".c", plain=False):
+    def __init__(self, scen, base, seed=0, alias=None, ext_c=".c", plain=False, ext_of=None):
         self.scen = scen
         self.base = base                      # temp dir
         self.root = os.path.join(base, "root")
@@ -44,7 +44,11 @@ class Mat:
         for fid, f in sorted(scen["files"].items(), key=lambda kv: bool(kv[1].get("copyof"))):
             d = self.dir_path(f["dir"])
             os.makedirs(d, exist_ok=True)
-            path = os.path.join(d, f["name"])
+            name = f["name"]
+            if ext_of and fid in ext_of:
+                # the same source text under another (C-family) extension, e.g. a C++ translation unit
+                name = os.path.splitext(name)[0] + ext_of[fid]
+            path = os.path.join(d, name)
             rnd = random.Random(f"{seed}-{fid}")
             if f.get("copyof"):
                 # a byte-identical copy of another file of the tree
